@@ -103,8 +103,21 @@ class Hist:
                 path = f"/w/p/src/{name}.gleam"
                 if any(self.files[i][0] == path for i in self.live):
                     return self.step()
-                self.files.append([path, "pub fn added() { 1 }\n"])
+                # the new module uses a public function of a module that is already there: answers about that function
+                # (its references) change with the new module
+                import re as _re
+                body = "pub fn added() { 1 }\n"
+                olds = [(self.files[i][0], m.group(1)) for i in self.live if self.files[i][0].startswith("/w/p/src/m")
+                        for m in _re.finditer(r"(?m)^pub fn ([a-z][a-z0-9_]*)\(", self.files[i][1])]
+                if olds:
+                    op, fn = r.choice(olds)
+                    mod = op[len("/w/p/src/"):-len(".gleam")]
+                    body = f"import {mod}\n\npub fn added() {{\n  {mod.split('/')[-1]}.{fn}\n}}\n"
+                self.files.append([path, body])
                 new = [len(self.files) - 1]
+                self.live += new
+                # the way a server announces a new file of a known package: content and source roots - the package graph is not sent again
+                return ("none" if r.random() < 0.6 else self.graph_spec(), self.roots_spec(), ",".join(f"{i}:{hexs(self.files[i][1])}" for i in new))
             self.live += new
             return (self.graph_spec(), self.roots_spec(), ",".join(f"{i}:{hexs(self.files[i][1])}" for i in new))
         if k == 8 and len(gle) > 1:
